@@ -187,3 +187,11 @@ for _o in range(8):
     LOOPS[K + 'deltaMax'][_o]['invariant'].append('Or(%s, self.dmax >= 0)' % _FIRST[_o])
     if _o not in (4, 6):
         LOOPS[K + 'deltaMax'][_o]['post_lemmas'] = ['delta_nonneg(nseq.seq, nseq.len)']
+
+# callers that ask for the permutant (the Wang-Landau start state) get the permutant contract
+def _permutant_result(it, env):
+    return (it.fresh('deltaMax.value', 'real'), it.fresh_seq('deltaMax.permutant', 'str', 'char'))
+
+
+CONTRACT[K + 'deltaMax#permutant']['returns'] = _permutant_result
+CONTRACT[K + 'deltaMax']['dispatch'] = [('returnSeqDeltaMax == True', K + 'deltaMax#permutant')]
